@@ -147,11 +147,9 @@ READER_KINDS = {
     "callable": (lambda: CallReader(), True, True),
     "callable-plain": (lambda: CallReaderPlain(), False, True),
 }
-# A bound-method reader with exactly ONE extra parameter loses its read arguments in the unchanged code
-# (`number_args = 1 + int(ismethod)` although inspect.signature of a bound method already omits self) - reported as a suspected
-# defect, signature `bound-method-reader-args-dropped`; generated only when VERIF_C11_BOUND_READER=1.
-if os.environ.get("VERIF_C11_BOUND_READER") == "1":
-    READER_KINDS["method-one"] = (lambda: HandlerObject().read_one, True, True)
+# A bound-method reader with exactly ONE extra parameter lost its read arguments (`number_args = 1 + int(ismethod)` although
+# inspect.signature of a bound method already omits self): fixed by /repo 59b4180, signature `bound-method-reader-args-dropped`.
+READER_KINDS["method-one"] = (lambda: HandlerObject().read_one, True, True)
 WRITER_KINDS = {
     "function": (lambda: text_writer, True, True),
     "function-kw": (lambda: writer_kw, True, True),
@@ -357,8 +355,16 @@ def history_case(ck, scratch, nops, use_model=True, pool="thread"):
         return (override or SETS[sid]["r"] or "r0") if READER_KINDS[kinds[sid][0]][1] else "r0"
 
     def sig(default, *sids):
-        """suspected defect of the unchanged code (only generated with VERIF_C11_BOUND_READER=1)"""
+        """bound-method reader with one extra parameter (defect fixed by /repo 59b4180)"""
         return "bound-method-reader-args-dropped" if any(kinds[x][0] == "method-one" for x in sids if x) else default
+
+    def info_blocked(owner, sid):
+        """find() through a FileSet object that has an info function (info_via="both") decompresses every file whose name has
+        a compression suffix before calling it.  After a NON-converting move across a compression-suffix change the target
+        holds plain bytes under a .gz name - unreadable through any handler BY DESIGN (the property only promises that the
+        content is kept; conversion happens "when convert is set").  Such a fileset object cannot be searched then; the
+        files are still checked by name and byte content (snapshot) and through the target's own fileset."""
+        return kinds[owner][2] is not None and SETS[sid]["z"] and any(not st.startswith("z:") for st in oracle[sid].values())
 
     def decode_expect(sid, struct, tag=None, via=None):
         """reading `struct` (a file in sid's template) through fileset sid, or through a copy of fileset `via`"""
@@ -509,7 +515,7 @@ def history_case(ck, scratch, nops, use_model=True, pool="thread"):
                 sid = rng.choice([s for s in ids if oracle[s]] or ids[:1])
                 qs, qe = window()
                 fs, via = sets[sid], None
-                if sid in returned and rng.random() < 0.5:
+                if sid in returned and rng.random() < 0.5 and not info_blocked(returned[sid][1], sid):
                     fs, via = returned[sid]             # the object move(<string>) returned stands in for the target fileset
                 try:
                     found = list(fs.find(qs, qe, no_files_error=False))
@@ -604,6 +610,9 @@ def history_case(ck, scratch, nops, use_model=True, pool="thread"):
                     ck.violation("move-return", "move(<FileSet>) did not return that FileSet", case)
                 if string_target:
                     returned[dst] = (ret, src)
+                if string_target and info_blocked(src, dst):
+                    ck.count("returned-fileset/not-searchable-by-design(info function + plain bytes under .gz)")
+                elif string_target:
                     want_all = sorted(own_name(dst, k) for k in oracle[dst])
                     try:
                         got_all = sorted(os.path.relpath(i.path, root) for i in ret.find(no_files_error=False))
@@ -624,7 +633,7 @@ def history_case(ck, scratch, nops, use_model=True, pool="thread"):
                         except Exception:      # noqa
                             tok = None
                         if tok != decode_expect(dst, oracle[dst][key], None, src):
-                            ck.violation("read", f"read({rel}) through the fileset returned by move = {tok}, expected "
+                            ck.violation(sig("read", dst, src), f"read({rel}) through the fileset returned by move = {tok}, expected "
                                                  f"{decode_expect(dst, oracle[dst][key], None, src)}", case)
                 ops.append(["move", src, dst, int(copy), conv, mode, len(sel), string_target])
                 ck.count("select/move/" + mode)
